@@ -172,7 +172,7 @@ def run(ctx):
         rnd = random.Random(ctx.seed * 49979687 + 18)
         cases = [gen_case(rnd) for _ in range(ctx.pick(30000, 1500000))]
     lines = ["Y %d %s %s %s" % (i, hexs("qtlogger.sentry"), hexs("1.0.0"), enc_msg(m)) for i, m in enumerate(cases)]
-    results, crashes = fmtdrv.run_cases(ctx, "san", lines, chunk=500)
+    results, crashes = fmtdrv.run_cases(ctx, "san", lines, chunk=500, lags=fmtdrv.LAGS)
 
     def rep_of(m):
         mm = dict(m)
